@@ -13,6 +13,9 @@ type Space struct {
 	Name   string
 	Tokens []string
 	Doc    string
+	// Suffix is appended to every token sequence (e.g. the reference
+	// definitions that the tokens' reference links resolve against).
+	Suffix string
 }
 
 func sp(name, doc string, toks ...string) Space { return Space{Name: name, Tokens: toks, Doc: doc} }
@@ -52,6 +55,20 @@ var (
 	// raw tags, entities, references and their definitions inside containers.
 	XPhrase = sp("X-phrase", "whole inline constructs and container prefixes",
 		"*a*", "**b**", "`c`", "[d](/e)", "![f](/g \"h\")", "<i>", "&amp;", "[r]", "[r]: /u\n", "\n", "> ", "- ", "\\\n", "x", " ")
+	// XInfo: info strings and other places where "blank" and "white space" are
+	// decided: Unicode spaces, form feed, character references that decode to
+	// white space, next to both fence characters.
+	XInfo = sp("X-info", "code fences with info strings made of ASCII and Unicode white space, entities that decode to white space, backslashes",
+		"```", "~~~", "\f", "&#32;", "&nbsp;", " ", "a", "\n", "\u00a0", "\\", "&Tab;", "\t")
+	// XRefHead: reference links and images at the end of headings and paragraphs
+	// inside containers; the definitions they resolve against follow as suffix.
+	XRefHead = Space{Name: "X-refhead", Doc: "full/collapsed/shortcut reference links and images ending headings and lines inside containers, definitions appended",
+		Tokens: []string{"> ", "- ", "# ", "[a][r]", "![a][r]", "[r]", "[r][]", "\n", "x", "  ", "*"}, Suffix: "\n\n[r]: /u 't'\n"}
+	// XMl: inline constructs that continue on the next line (raw tags, code
+	// spans, link destinations and titles, emphasis).
+	XMl = sp("X-ml", "inline constructs spanning lines", "a", " ", "\n", "<b", "c>", "`", "[x](", "/u", ")", " \"t", "u\"", "*")
+	// XDefs: several definitions, duplicates among them, and their uses.
+	XDefs = sp("X-defs", "duplicate and distinct definitions with their uses", "[a]: /1\n", "[a]: /2\n", "[b]: /3\n", "[b]", "[a]", "\n", "x", "> ", "- ")
 	XEol = sp("X-eol", "CR / CRLF / LF paths",
 		"a", "\r", "\n", " ", "\\", "`", ">", "-", "\t")
 	// Inj: attribute-injection alphabet for C07.
@@ -78,7 +95,7 @@ var (
 )
 
 // All lists every declared space (for the start-up self test).
-var All = []Space{B, I, L, XHead, XRef, XLink, XCode, XHTML, XEmph, XList, XNul, XNulRef, XPhrase, XEol, Inj, XEnt, XWs, XNest, XMlRef, Emph5, Emph4, Emph3}
+var All = []Space{B, I, L, XHead, XRef, XLink, XCode, XHTML, XEmph, XList, XNul, XNulRef, XPhrase, XInfo, XRefHead, XMl, XDefs, XEol, Inj, XEnt, XWs, XNest, XMlRef, Emph5, Emph4, Emph3}
 
 // ByName finds a space.
 func ByName(name string) (Space, bool) {
@@ -92,7 +109,7 @@ func ByName(name string) (Space, bool) {
 
 // Without returns a copy of the space without the given tokens.
 func (s Space) Without(drop ...string) Space {
-	out := Space{Name: s.Name, Doc: s.Doc}
+	out := Space{Name: s.Name, Doc: s.Doc, Suffix: s.Suffix}
 	for _, t := range s.Tokens {
 		skip := false
 		for _, d := range drop {
